@@ -1188,7 +1188,7 @@ class Repeat(Operation):
            step: int = 0) -> List[Any]:
     results = []
     for _ in range(scalars.scalar_value(self.k, step)):
-      results.extend(self.op(inputs, global_state=global_state, step=step))
+      results.extend(self._op(inputs, global_state=global_state, step=step))
     return results
 
 
